@@ -132,6 +132,13 @@ SKELETONS["seq_beta"] = ({"doc.json": {"type": "object", "title": "Root", "prope
     "child": {"type": "object", "title": "Beta", "properties": {"n": {"type": "integer", "minimum": 0}}}, "other": {"type": "object", "title": "Alpha", "required": ["g"]}}}},
     "doc.json", '{"child": ({"n": x} if h1 else {}), **({"other": ({"g": y} if y > 0 else {})} if h2 else {})}')
 
+# annotations that are bare typing names (no subscript anywhere in the module): Array([], additionalItems=False) -> `List`.
+# ("items": [] is outside the Draft-6 metaschema; statham accepts it, so the module it generates must still run.)
+SKELETONS["bare_typing_names"] = ({"doc.json": {"type": "object", "title": "Root", "properties": {
+    "tags": {"type": "array", "items": [], "additionalItems": False}, "name": {"type": "string"},
+    "either": {"anyOf": [{"type": "array", "items": [], "additionalItems": False}, {"type": "string"}]}, "any": {}}}},
+    "doc.json", '{**({"tags": ([] if h2 else [x])} if h1 else {"either": ([] if h2 else "s")}), "any": y}')
+
 _CNT = [0]
 
 
@@ -266,7 +273,7 @@ def accepted(name, v):
 
 def harnesses(ctx) -> List[H]:
     hs: List[H] = []
-    quick = {"seq_alpha", "seq_beta", "root_def_def", "shared_def", "cross_file", "untitled_nested", "repeated_titles", "defaults_equal_to_constructor", "renamed_and_literals", "boolean_subschemas", "false_only_in_single_positions", "equal_shapes_different_titles", "nested_literals", "object_under_not"}
+    quick = {"bare_typing_names", "seq_alpha", "seq_beta", "root_def_def", "shared_def", "cross_file", "untitled_nested", "repeated_titles", "defaults_equal_to_constructor", "renamed_and_literals", "boolean_subschemas", "false_only_in_single_positions", "equal_shapes_different_titles", "nested_literals", "object_under_not"}
     for name, (_files, _entry, build) in SKELETONS.items():
         hs.append(mk(f"c02_{name}", "x: int, y: int, h1: bool, h2: bool", [], f"v = {build}\nreturn equivalent({name!r}, v)", timeout=200, group="skeleton",
                      tier="quick" if name in quick else "thorough", covers=f"skeleton {name}: main() output executes, defines the parser's classes (equal), root verdict/result equal for the value family {build}"))
